@@ -392,6 +392,9 @@ def run(ctx):
         _extra.check_end_of_data(ck, prog, config, 'C01-j')
         # ---- k  unzck never opens its own input for writing
         _extra.check_no_self_overwrite(ck, prog, config, 'C01-k')
+        # ---- l  the reader's scratch block holds what is read into it, for every request size
+        from ..rules import extent as _ext
+        _ext.check_buffer_extents(ck, prog, config, 'C01-l', only=('comp_read', 'chunks_from_temp'))
         ck.min_instances('tool main() functions that open files', nt, 5)
         # ---- h  the zck tool's split-string scanner: two structural necessary conditions (the scanner as a whole is declined)
         from ..rules import guardlen
